@@ -2,6 +2,7 @@
 import vlib
 from vlib import hexs, unhexs
 import gens
+import richvalues
 
 ALPHA = ["'", '"', "\\", "\0", "\b", "\t", "\n", "\r", "\x1a", "a", "z", "Z", "0", "%", "_", "é", "\U0001F600"]
 VALUE_POS = ["valstr", "val", "const", "field", "default"]
@@ -56,16 +57,68 @@ def gen_cases(ctx):
         for b in B:
             p = rng.choice(VALUE_POS) if len(y) != 1 else "val"
             lines.append("lit %s %s y %s" % (b, p, y.hex() if y else "-"))
+    rich = gen_value_cases(ctx)
+    lines += rich
     ctx.cov["distribution"] = {"strings": len(strings), "chars": len(chars), "bytes": len(bl),
-                               "exhaustive_alphabet": [hex(ord(c)) for c in ALPHA], "exhaustive_maxlen": maxlen}
+                               "exhaustive_alphabet": [hex(ord(c)) for c in ALPHA], "exhaustive_maxlen": maxlen,
+                               "json_and_array_cases": len(rich), "json_and_array_values": richvalues.distribution(["v:" + l.split(" ")[4] for l in rich])["rich_by_kind"]}
     return lines
 
 
-def has_nul(case):
+def gen_value_cases(ctx):
+    """the Json arm and text / char / bytes elements of arrays (value_to_string_common), at every position that
+    takes a Value.  Case: `lit <b> <pos> v <hex of value term>:<hex of model encoding>`; the encoding (harness op
+    venc, computed without sea-query) carries serde_json's text / the elements, i.e. what the literal must decode to."""
+    rng = ctx.rng
+    q = ctx.quick
+    # JSON strings of arbitrary content: serde_json escapes the double quote, backslash and control characters and
+    # writes everything else raw; the literal writer must then quote that text
+    js = list(gens.shortlex(ALPHA, 1 if q else 2)) + [gens.rand_string(rng, 10) for _ in range(150 if q else 4000)]
+    terms = ["Json:s%s" % hexs(x) for x in js] + ["Json:%d" % j for j in range(richvalues.JSON_POOL)]
+    alpha = [c for c in ALPHA if c != "\0"]          # arrays: no NUL (no engine representation on Postgres / SQLite)
+    for _ in range(150 if q else 4000):
+        k = rng.randrange(3)
+        n = rng.randrange(1, 5)
+        if k == 0:
+            items = ["String:%s" % hexs(rng.choice(["".join(rng.choice(alpha) for _ in range(rng.randrange(0, 4))),
+                                                   gens.rand_string(rng, 8).replace("\0", "")])) for _ in range(n)]
+            terms.append("Array:String:[%s]" % ",".join(items))
+        elif k == 1:
+            items = ["Char:%x" % ord(rng.choice(alpha + [gens.rand_unicode_char(rng).replace("\0", "a")])) for _ in range(n)]
+            terms.append("Array:Char:[%s]" % ",".join(items))
+        else:
+            items = ["Bytes:%s" % (bytes(rng.randrange(256) for _ in range(rng.randrange(0, 6))).hex() or "-") for _ in range(n)]
+            terms.append("Array:Bytes:[%s]" % ",".join(items))
+    seen = set()
+    terms = [t for t in terms if not (t in seen or seen.add(t))]
+    atoms = richvalues.encode_terms(ctx, terms)
+    lines = []
+    for k, a in enumerate(atoms):
+        payload = a[2:]
+        for b in B:
+            for p in (VALUE_POS if k % 10 == 0 else [rng.choice(VALUE_POS)]):
+                lines.append("lit %s %s v %s" % (b, p, payload))
+    return lines
+
+
+def expected(case):
+    """(kind for the declit op, payloads the literal(s) must decode to) of a case line"""
     _, b, p, k, payload = case.split(" ")
-    if k == "y":
+    if k != "v":
+        return k, payload.split(".")
+    e = richvalues.parse_enc(unhexs(payload.split(":")[1]))
+    if e[0] == "o" and e[1] == "Json":
+        return "s", [e[3]]
+    if e[0] == "arr" and e[1] in ("String", "Char", "Bytes") and all(x[0] in "scy" for x in e[2:]):
+        return ("ay" if e[1] == "Bytes" else "as"), [x[1] for x in e[2:]]
+    raise ValueError("C03 has no decode rule for the value %r" % (e,))
+
+
+def has_nul(case):
+    k, payloads = expected(case)
+    if k in ("y", "ay"):
         return False
-    return any(h != "-" and b"\x00" in vlib.unhex(h) for h in payload.split("."))
+    return any(h != "-" and b"\x00" in vlib.unhex(h) for h in payloads)
 
 
 def batch_oracle(ctx, lines, impl):
@@ -79,11 +132,12 @@ def batch_oracle(ctx, lines, impl):
         if o == "PANIC" or " " in o or o.startswith("CRASH"):
             verdicts[i] = "implementation panicked on a value the property covers"
             continue
-        dl.append("declit %s %s %s %s" % (b, p, k, o))
+        dl.append("declit %s %s %s %s" % (b, p, expected(c)[0], o))
         idx.append(i)
     outs = ctx.run_model(dl, "oracle")
     for i, o in zip(idx, outs):
         _, b, p, k, payload = lines[i].split(" ")
+        payload = ".".join(expected(lines[i])[1])
         f = o.split(" ")
         if len(f) != 3:
             verdicts[i] = "engine lexer does not accept the text at the literal position as one literal (%s)" % o
@@ -97,25 +151,32 @@ def batch_oracle(ctx, lines, impl):
 
 def describe(case):
     _, b, p, k, payload = case.split(" ")
+    if k == "v":
+        dk, hs = expected(case)
+        vals = [vlib.unhex(h) if dk == "ay" else unhexs(h) for h in hs]
+        return "backend=%s position=%s value term=%s must decode to %s %r" % (
+            b, p, unhexs(payload.split(":")[0]), {"s": "the JSON text", "as": "the elements", "ay": "the elements"}[dk], vals)
     vals = [vlib.unhex(h) if k == "y" else unhexs(h) for h in payload.split(".")]
     return "backend=%s position=%s kind=%s value=%r" % (b, p, {"s": "string", "c": "char", "y": "bytes"}[k], vals)
 
 
 def run(ctx):
     return vlib.standard_flow(
-        ctx, "base", gen_cases, batch_oracle=batch_oracle, describe=describe,
-        nontrivial=lambda c: any(x in c.split(" ")[4] for x in ("27", "5c", "22", "00", "0a", "1a")),
+        ctx, "fa", gen_cases, batch_oracle=batch_oracle, describe=describe,
+        nontrivial=lambda c: any(x in h for h in expected(c)[1] for x in ("27", "5c", "22", "00", "0a", "1a")),
         rule="strings: all over the escape-relevant alphabet up to the stated length + random Unicode, at every inlining "
              "position (value_to_string, Expr::val, Constant, ORDER BY FIELD, DEFAULT, LIKE ESCAPE, MySQL COMMENT/ENUM, "
              "Postgres CREATE/ALTER TYPE labels); chars: all of U+0000..U+00FF + samples of every UTF-8 length; bytes: "
-             "every single byte + random strings; non-trivial = contains a quote, backslash, NUL, newline or U+001A")
+             "every single byte + random strings; Json values (JSON strings of every content over the alphabet + random, a pool "
+             "of documents) and arrays of strings / chars / byte strings at every position that takes a Value: the "
+             "literal(s) must decode to serde_json's text / the elements; non-trivial = contains a quote, backslash, NUL, newline or U+001A")
 
 
 def replay(path):
     import json
     obj = json.load(open(path))
     ctx = vlib.Ctx("C03", "quick")
-    ctx.build("base", model=True)
+    ctx.build("fa", model=True)
     case = obj["case"]
     i, m = ctx.run_both([case], "replay")
     print("case:", describe(case))
